@@ -124,8 +124,10 @@ type PathResult struct {
 	Model       map[string]string `json:"model,omitempty"` // for panic / reach witness
 	Notes       []string          `json:"notes,omitempty"`
 	Choices     map[string]int    `json:"choices,omitempty"`
+	Exports     []PathExport      `json:"-"`
 	Merges      int               `json:"merges,omitempty"`
 	IfConversions int             `json:"if_conversions,omitempty"`
+	FreeSplits  int               `json:"free_splits,omitempty"`
 	MergeAborts int               `json:"merge_aborts,omitempty"`
 	Outputs     map[string]string `json:"outputs,omitempty"`
 }
@@ -173,6 +175,14 @@ type HarnessResult struct {
 	AllPaths    []*PathResult `json:"all_paths,omitempty"`
 	Funcs       map[string]int `json:"-"`
 	LazyAllocSites []string   `json:"lazy_alloc_sites,omitempty"`
+	Exports     []PathExport  `json:"-"`
+	Ctx         *Ctx          `json:"-"`
+}
+
+// PathExport is a path condition exported by a harness (nd.ExportPC) for post-processing.
+type PathExport struct {
+	Name string
+	PC   []*Term
 }
 
 // Worker owns a term context and a solver.
@@ -201,7 +211,7 @@ func modelStr(m map[string]*big.Int) map[string]string {
 func (w *Worker) Explore(h *HarnessRun) *HarnessResult {
 	t0 := time.Now()
 	q0, s0 := w.solver.Stats.Queries, w.solver.Stats.WallNs
-	hr := &HarnessResult{Name: h.Name, Funcs: map[string]int{}}
+	hr := &HarnessResult{Name: h.Name, Funcs: map[string]int{}, Ctx: w.ctx}
 	if h.MaxSteps == 0 {
 		h.MaxSteps = 2000000
 	}
@@ -219,6 +229,7 @@ func (w *Worker) Explore(h *HarnessRun) *HarnessResult {
 		for _, s := range pr.LazyAllocs {
 			lazy[s] = true
 		}
+		hr.Exports = append(hr.Exports, pr.Exports...)
 		viol := false
 		for _, a := range pr.Asserts {
 			switch a.Status {
